@@ -743,3 +743,70 @@ func c03SubstitutionStopsAtSpread(p *Prog) *RuleResult {
 	r.Floor(1)
 	return r
 }
+
+// ---------------------------------------------------------------------------------------------
+// C03/R15 substitution-stops-at-template-tostring.
+//
+// An untagged template literal converts each substitution to a string as it goes: `${o}${x}` calls
+// o.toString() before x is evaluated. The single-use substitution may therefore continue past a part
+// only if converting it cannot run code, i.e. the part is known to be a primitive. Rule: in the loop
+// over ETemplate.Parts the continuation to the next part is control dependent on a
+// KnownPrimitiveType test of the part (or on the template being tagged).
+func c03SubstitutionStopsAtTemplatePart(p *Prog) *RuleResult {
+	r := NewRule("C03/R15 substitution-stops-at-template-tostring", "the single-use substitution does not continue past a template part whose conversion to a string could run code")
+	fn := p.FindFunc("js_parser.(*parser).substituteSingleUseSymbolInExpr")
+	if !r.Anchor("js_parser.(*parser).substituteSingleUseSymbolInExpr", fn != nil) {
+		return r
+	}
+	loops := naturalLoops(fn)
+	n := 0
+	for header, body := range loops {
+		isLoop := false
+		for b := range body {
+			for _, in := range b.Instrs {
+				if ia, ok := in.(*ssa.IndexAddr); ok {
+					if owner, name, ok := loadedField(ia.X); ok && owner == "js_ast.ETemplate" && name == "Parts" {
+						isLoop = true
+					}
+				}
+			}
+		}
+		if !isLoop {
+			continue
+		}
+		n++
+		r.Instances++
+		key := "substituteSingleUseSymbolInExpr continues to the next part of a template literal"
+		bad := ""
+		for _, pred := range header.Preds {
+			if !body[pred] {
+				continue
+			}
+			tested := false
+			for _, ifi := range controlDepIfsTransitive(pred) {
+				if !body[ifi.Block()] {
+					continue
+				}
+				sliceCond(ifi.Cond, func(v ssa.Value) bool {
+					if c, ok := v.(*ssa.Call); ok && strings.HasSuffix(calleeFullName(c), "js_ast.KnownPrimitiveType") {
+						tested = true
+					}
+					return true
+				})
+			}
+			if !tested {
+				bad = p.Pos(firstPos(pred))
+			}
+		}
+		if bad == "" {
+			r.OK(key, true, "every continuation is conditional on the part being a known primitive")
+		} else {
+			r.Fail(key, bad, "the walk moves on to the next part without asking whether converting this part to a string can run code: with `let x = a` followed by a template that interpolates o and then x, a toString in o that assigns a makes the moved read of a see the new value")
+		}
+	}
+	if !r.Anchor("the loop over ETemplate.Parts in substituteSingleUseSymbolInExpr", n >= 1) {
+		return r
+	}
+	r.Floor(1)
+	return r
+}
